@@ -41,6 +41,7 @@ import (
 	"google.golang.org/protobuf/proto"
 	"google.golang.org/protobuf/reflect/protoreflect"
 	"google.golang.org/protobuf/types/descriptorpb"
+	"google.golang.org/protobuf/types/known/anypb"
 )
 
 type mismatch struct {
@@ -118,6 +119,9 @@ func compile(src string, mode protocompile.SourceInfoMode) (res linker.Result, e
 				if path == "google/protobuf/descriptor.proto" {
 					return protocompile.SearchResult{Desc: descriptorFile}, nil
 				}
+				if path == "google/protobuf/any.proto" {
+					return protocompile.SearchResult{Desc: anyFile}, nil
+				}
 				return protocompile.SearchResult{}, os.ErrNotExist
 			}),
 			&protocompile.SourceResolver{
@@ -144,7 +148,7 @@ func isPanic(err error) bool {
 	return errors.As(err, &pe) || strings.HasPrefix(err.Error(), "PANIC:")
 }
 
-var descriptorFile linker.File
+var descriptorFile, anyFile linker.File
 
 func parse(src string) (parser.Result, error) {
 	h := reporter.NewHandler(nil)
@@ -160,7 +164,7 @@ func link(src string) (linker.Result, error) {
 	if err != nil {
 		return nil, err
 	}
-	return linker.Link(pr, linker.Files{descriptorFile}, nil, reporter.NewHandler(nil))
+	return linker.Link(pr, linker.Files{descriptorFile, anyFile}, nil, reporter.NewHandler(nil))
 }
 
 // anyUninterpreted walks every message of the descriptor and reports the first uninterpreted_option.
@@ -237,7 +241,7 @@ func cmpHost(exp []Entry, fd *descriptorpb.FileDescriptorProto, kind string, sib
 	if err != nil {
 		return nil, err
 	}
-	return cmpMsg(rest, dm, 0, "options", skipUninterp), nil
+	return cmpMsg(&ctx{files}, rest, dm, 0, "options", skipUninterp), nil
 }
 
 // ---- C20 -------------------------------------------------------------------------------------------
@@ -266,7 +270,7 @@ func checkC20(c *Case) {
 		report("uninterpreted-left", c, src, "uninterpreted_option not empty after successful compilation at "+at)
 		return
 	}
-	d, err := cmpHost(c.Es, fd, c.Kind, false, descriptorpb.File_google_protobuf_descriptor_proto, res)
+	d, err := cmpHost(c.Es, fd, c.Kind, false, descriptorpb.File_google_protobuf_descriptor_proto, anypb.File_google_protobuf_any_proto, res)
 	if err != nil {
 		report("decode", c, src, err.Error())
 		return
@@ -383,7 +387,7 @@ func checkC21(c *Case) {
 		if serr == nil && !bytes.Equal(marshal(ls.FileDescriptorProto()), marshal(ll.FileDescriptorProto())) {
 			report("lenient:differs-from-strict", c, src, "strict interpretation succeeded and lenient interpretation gives a different descriptor")
 		}
-		d, err := cmpHost(c.Es, ll.FileDescriptorProto(), c.Kind, false, descriptorpb.File_google_protobuf_descriptor_proto, ll)
+		d, err := cmpHost(c.Es, ll.FileDescriptorProto(), c.Kind, false, descriptorpb.File_google_protobuf_descriptor_proto, anypb.File_google_protobuf_any_proto, ll)
 		if err != nil {
 			report("decode", c, src, err.Error())
 		} else if d != nil {
@@ -561,7 +565,7 @@ func checkC22(c *Case) {
 				}
 				return
 			}
-			d, err := cmpHost(st.Es, out, c.Kind, sib, descriptorpb.File_google_protobuf_descriptor_proto, res)
+			d, err := cmpHost(st.Es, out, c.Kind, sib, descriptorpb.File_google_protobuf_descriptor_proto, anypb.File_google_protobuf_any_proto, res)
 			if err != nil {
 				report("decode", c, src, tag+": "+err.Error())
 			} else if d != nil {
@@ -640,18 +644,20 @@ func checkC22(c *Case) {
 		}
 		nLocs.Add(int64(len(in.SourceCodeInfo.Location)))
 		got := out.GetSourceCodeInfo().GetLocation()
-		gi := 0
-		for _, w := range want {
-			if gi < len(got) && proto.Equal(got[gi], w) {
-				gi++
-				continue
+		// the result must be exactly `want`, in order: walk both
+		wi := 0
+		var extra *descriptorpb.SourceCodeInfo_Location
+		for _, g := range got {
+			if wi < len(want) && proto.Equal(g, want[wi]) {
+				wi++
+			} else if extra == nil {
+				extra = g
 			}
-			report("strip:srcinfo:live-location-dropped", c, src, fmt.Sprintf("%s: location %v is not under a removed option and is missing (or out of order) in the result", tag, w.Path))
-			gi = -1
-			break
 		}
-		if gi >= 0 && gi < len(got) {
-			report("strip:srcinfo:removed-location-kept", c, src, fmt.Sprintf("%s: location %v points into a removed option and is still there (%d locations under removed options)", tag, got[gi].Path, under))
+		if wi < len(want) {
+			report("strip:srcinfo:live-location-dropped", c, src, fmt.Sprintf("%s: location %v is not under a removed option and is missing (or out of order) in the result", tag, want[wi].Path))
+		} else if extra != nil {
+			report("strip:srcinfo:removed-location-kept", c, src, fmt.Sprintf("%s: location %v points into a removed option and is still there (%d locations under removed options)", tag, extra.Path, under))
 		}
 	}
 }
@@ -665,6 +671,11 @@ func main() {
 	flag.Parse()
 	var err error
 	descriptorFile, err = linker.NewFileRecursive(descriptorpb.File_google_protobuf_descriptor_proto)
+	if err != nil {
+		fmt.Fprintln(os.Stderr, "harness:", err)
+		os.Exit(2)
+	}
+	anyFile, err = linker.NewFileRecursive(anypb.File_google_protobuf_any_proto)
 	if err != nil {
 		fmt.Fprintln(os.Stderr, "harness:", err)
 		os.Exit(2)
